@@ -176,6 +176,12 @@ class LBCheck(BaseCheck):
           stats['no_member_dispatches'] += 1
           classes.add('no-members')
         return
+      if not (ss.pending or ss.loading or ss.closed) and opened[0] and not ss.truth and not w.callback_errors:
+        # the server set is empty and every notification has been delivered: there are no members at all
+        ob('dispatch:')
+        violate('dispatch:member-chosen-with-no-members', 'request %d went to %r although the server set is empty (every notification '
+                'has been delivered): it should have failed at once with NoMembersError' % (req['id'], ch),
+                {'left_during_loading': ch.removed_step is None})
       if not (ss.pending or ss.loading or ss.closed) and opened[0] and ch.ep not in ss.truth:
         ob('removal:')
         violate('removal:request-to-departed', 'request %d went to %r, which is not in the server set (every '
